@@ -1,2 +1,139 @@
+//! C08 — untrusted input never crashes a BBS verifier, signer or holder: exhaustive length sweeps x content classes on
+//! every decoder, JSON leaf substitutions, all index lists of length <= 3 over the boundary alphabet, count alphabets;
+//! executed in isolated worker processes with CPU / allocation budgets and hang detection.
+#![allow(non_snake_case)]
 use crate::common::*;
-pub fn run(_env: &Env) {}
+use crate::sweep::*;
+use crate::worker::{base, Base};
+use crate::zk::{Kind, KINDS};
+use mccore::fill;
+use refbbs::Suite;
+use serde_json::{json, Value};
+
+fn classes(seed: u64, honest: &[u8], n: usize, tag: &str) -> Vec<(&'static str, Vec<u8>)> {
+    let mut v: Vec<(&'static str, Vec<u8>)> = Vec::new();
+    v.push(("zeros", vec![0u8; n]));
+    v.push(("ff", vec![0xffu8; n]));
+    let mut id = vec![0u8; n]; if n > 0 { id[0] = 0xc0; } v.push(("identity-pattern", id));
+    let mut h: Vec<u8> = honest.iter().copied().take(n).collect(); h.resize(n, 0); v.push(("honest-truncated-or-zero-extended", h));
+    let mut h2: Vec<u8> = honest.iter().copied().take(n).collect(); h2.resize(n, 0xff); v.push(("honest-prefix-then-ff", h2));
+    v.push(("random", fill(seed, &format!("c08-{}-{}", tag, n), n)));
+    v
+}
+
+pub fn leaf_substitutions() -> Vec<(&'static str, Value)> {
+    vec![
+        ("wrong-type-number", json!(7)), ("wrong-type-null", Value::Null), ("wrong-type-array", json!([1, 2])), ("empty-string", json!("")), ("odd-length-hex", json!("abc")), ("non-hex", json!("zz")),
+        ("2MB-hex", json!("ab".repeat(1 << 20))), ("identity-g1", json!(format!("c0{}", "00".repeat(47)))), ("identity-g2", json!(format!("c0{}", "00".repeat(95)))),
+        ("non-canonical-scalar", json!("ff".repeat(32))), ("array-of-1e5-zeros", json!(vec![0; 100000])), ("nested-object", json!({"a": {"b": 1}})),
+    ]
+}
+
+/// every leaf path of a JSON value
+pub fn leaf_paths(v: &Value, pre: Vec<String>, out: &mut Vec<Vec<String>>) {
+    match v {
+        Value::Object(m) => for (k, x) in m { let mut p = pre.clone(); p.push(k.clone()); leaf_paths(x, p, out); },
+        Value::Array(a) => { for (i, x) in a.iter().enumerate() { let mut p = pre.clone(); p.push(i.to_string()); leaf_paths(x, p, out); } if a.is_empty() { out.push(pre); } }
+        _ => out.push(pre),
+    }
+}
+pub fn set_path(v: &mut Value, path: &[String], new: Option<Value>) {
+    if path.len() == 1 {
+        match v { Value::Object(m) => { match new { Some(n) => { m.insert(path[0].clone(), n); } None => { m.remove(&path[0]); } } } Value::Array(a) => { let i: usize = path[0].parse().unwrap(); match new { Some(n) => a[i] = n, None => { a.remove(i); } } } _ => {} }
+        return;
+    }
+    match v { Value::Object(m) => if let Some(x) = m.get_mut(&path[0]) { set_path(x, &path[1..], new) }, Value::Array(a) => { let i: usize = path[0].parse().unwrap(); set_path(&mut a[i], &path[1..], new) } _ => {} }
+}
+
+pub fn honest_octets(b: &Base, k: Kind) -> Vec<u8> {
+    match k { Kind::Pk => b.key.pk.clone(), Kind::Sk => b.key.sk.clone(), Kind::Sig => b.sig.clone(), Kind::BlindSig => b.bsig.clone(), Kind::Proof => b.proof.clone(), Kind::Commitment => b.cwp.clone() }
+}
+pub fn kind_name(k: Kind) -> &'static str { match k { Kind::Pk => "pk", Kind::Sk => "sk", Kind::Sig => "sig", Kind::BlindSig => "bsig", Kind::Proof => "proof", Kind::Commitment => "commitment" } }
+
+pub fn run(env: &Env) {
+    let seed = env.ctx.seed;
+    let maxlen = if env.thorough() { 2048 } else { 1024 };
+    env.ctx.set_rule("every byte length 0..=1024 (thorough 0..=2048) x 6 content classes (zeros, ff, identity pattern, honest encoding truncated/zero-extended, honest prefix then ff, seeded random) x 14 byte-taking entry points (8 decoders, deserialize_and_validate_commit, proof_gen(signature bytes), verify(pk bytes), blind_sign(commitment bytes), proof_verify(proof bytes), blind_proof_verify(proof bytes)); JSON: every leaf of the honest JSON of 6 types x 12 substitutions + removal; index lists: ALL lists of length <= 3 over {0,1,L-1,L,L+1,2^32,2^63,usize::MAX-1,usize::MAX} for proof_gen / proof_verify / blind_proof_gen / blind_proof_verify (each side), message-count mismatches, L and n alphabets for blind_proof_verify / update_signature; both suites. Oracle: the call returns Ok or Err (no panic, no abort, no hang), CPU <= 250 ms + 20 us/byte + 2 ms/count, allocation <= 256 KiB + 256 B/byte + 8 KiB/count. State = one (entry point, input) case; all are non-trivial (each reaches the real entry point).");
+    env.ctx.assume("budgets are one to two orders of magnitude above the measured honest costs so that timing noise cannot raise an alarm; the defects they exist for exceed them by more than six orders");
+    let mut cases: Vec<Case> = Vec::new();
+    for s in suites() {
+        let b = base(s);
+        let sn = s.name();
+        // 1. byte-taking entry points
+        let entries: Vec<(&str, Vec<u8>)> = vec![
+            ("dec_pk", b.key.pk.clone()), ("dec_sk", b.key.sk.clone()), ("dec_sig", b.sig.clone()), ("dec_blind_sig", b.bsig.clone()), ("dec_proof", b.proof.clone()), ("dec_zkpok", b.cwp[48..].to_vec()),
+            ("dec_commitment", b.cwp.clone()), ("dec_blind_factor", b.blind.to_vec()), ("davc", b.cwp.clone()), ("proof_gen_sig", b.sig.clone()), ("verify_pk", b.key.pk.clone()), ("blind_sign_cwp", b.cwp.clone()),
+            ("proof_verify_bytes", b.proof.clone()), ("blind_proof_verify_bytes", b.bproof.clone()),
+        ];
+        for (f, honest) in &entries {
+            for n in 0..=maxlen {
+                for (cn, bytes) in classes(seed, honest, n, f) {
+                    if n == 0 && cn != "zeros" { continue; }
+                    // blind_sign derives the number of blind generators from the commitment length: that count is legitimate work
+                    let count = if *f == "blind_sign_cwp" || *f == "davc" || f.ends_with("_bytes") { n / 32 + 4 } else { 0 };
+                    cases.push(Case { case: json!({"f": f, "s": sn, "b": hex::encode(&bytes), "class": cn, "len": n}), class: format!("{}:{}", f, cn), bytes: n, count, expect_ok: None });
+                }
+            }
+        }
+        // 2. JSON leaves
+        let zk = z(s);
+        for k in KINDS {
+            let hj = match zk.json_of(k, &honest_octets(&b, k)).ok() { Some(j) => j, None => { env.ctx.note(&format!("no JSON for {:?}", k)); continue; } };
+            let v: Value = serde_json::from_str(&hj).unwrap();
+            let mut paths = Vec::new();
+            leaf_paths(&v, vec![], &mut paths);
+            if paths.iter().any(|p| p.is_empty()) || paths.is_empty() { paths = vec![]; }
+            let whole: Vec<(String, Value)> = leaf_substitutions().into_iter().map(|(n, x)| (n.to_string(), x)).collect();
+            for (n, x) in &whole { let j = x.to_string(); cases.push(Case { case: json!({"f": "json", "s": sn, "kind": kind_name(k), "j": j, "edit": format!("whole value := {}", n)}), class: format!("json:{}:whole", kind_name(k)), bytes: j.len(), count: 0, expect_ok: None }); }
+            for p in &paths {
+                for (n, x) in leaf_substitutions() { let mut w = v.clone(); set_path(&mut w, p, Some(x)); let j = w.to_string(); cases.push(Case { case: json!({"f": "json", "s": sn, "kind": kind_name(k), "j": j, "edit": format!("{} := {}", p.join("/"), n)}), class: format!("json:{}:leaf", kind_name(k)), bytes: j.len(), count: 0, expect_ok: None }); }
+                let mut w = v.clone(); set_path(&mut w, p, None); let j = w.to_string();
+                cases.push(Case { case: json!({"f": "json", "s": sn, "kind": kind_name(k), "j": j, "edit": format!("{} removed", p.join("/"))}), class: format!("json:{}:leaf-removed", kind_name(k)), bytes: j.len(), count: 0, expect_ok: None });
+            }
+        }
+        // 3. index lists and counts
+        let vals = |l: usize| -> Vec<usize> { let mut v = vec![0, 1, l.wrapping_sub(1), l, l + 1, 1 << 32, 1 << 63, usize::MAX - 1, usize::MAX]; v.dedup(); v };
+        let lists = |l: usize| -> Vec<Vec<usize>> { let a = vals(l); let mut out: Vec<Vec<usize>> = vec![]; for len in 0..=3 { for t in mccore::tuples(a.len(), len) { out.push(t.iter().map(|&i| a[i]).collect()); } } out };
+        for idx in lists(3) {
+            for nm in [idx.len(), idx.len() + 1, idx.len().saturating_sub(1)] {
+                cases.push(Case { case: json!({"f": "proof_verify_idx", "s": sn, "idx": idx, "nm": nm}), class: "proof_verify:index-list".into(), bytes: 8 * idx.len() + 16 * nm, count: idx.len() + 4, expect_ok: None });
+            }
+            for nm in [3usize, 2, 4, 0] {
+                if nm != 3 && idx.len() > 1 { continue; }
+                cases.push(Case { case: json!({"f": "proof_gen_idx", "s": sn, "idx": idx, "nm": nm}), class: "proof_gen:index-list".into(), bytes: 8 * idx.len() + 16 * nm, count: nm + 4, expect_ok: None });
+            }
+        }
+        for idx in lists(2) {
+            cases.push(Case { case: json!({"f": "blind_proof_gen_idx", "s": sn, "idx": idx, "cidx": [0], "nm": 2, "ncm": 2}), class: "blind_proof_gen:index-list".into(), bytes: 8 * idx.len() + 64, count: 8, expect_ok: None });
+            cases.push(Case { case: json!({"f": "blind_proof_gen_idx", "s": sn, "idx": [0], "cidx": idx, "nm": 2, "ncm": 2}), class: "blind_proof_gen:committed-index-list".into(), bytes: 8 * idx.len() + 64, count: 8, expect_ok: None });
+            cases.push(Case { case: json!({"f": "blind_proof_verify_idx", "s": sn, "l": 2, "idx": idx, "cidx": [0], "nm": idx.len(), "ncm": 1}), class: "blind_proof_verify:index-list".into(), bytes: 8 * idx.len() + 64, count: idx.len() + 8, expect_ok: None });
+            cases.push(Case { case: json!({"f": "blind_proof_verify_idx", "s": sn, "l": 2, "idx": [0], "cidx": idx, "nm": 1, "ncm": idx.len()}), class: "blind_proof_verify:committed-index-list".into(), bytes: 8 * idx.len() + 64, count: idx.len() + 8, expect_ok: None });
+        }
+        let short: Vec<Vec<usize>> = lists(2).into_iter().filter(|l| l.len() <= 1).collect();
+        for a in &short { for c in &short { for l in [Some(0usize), Some(1), Some(2), Some(3), Some(4), Some(5), Some(6), Some(1 << 32), Some(usize::MAX - 1), Some(usize::MAX), None] {
+            for (nm, ncm) in [(a.len(), c.len()), (a.len() + 1, c.len()), (a.len(), c.len() + 1), (a.len() + 1, c.len().saturating_sub(1))] {
+                cases.push(Case { case: json!({"f": "blind_proof_verify_idx", "s": sn, "l": l, "idx": a, "cidx": c, "nm": nm, "ncm": ncm}), class: "blind_proof_verify:L-and-counts".into(), bytes: 64, count: 16, expect_ok: None });
+            }
+        } } }
+        for i in vals(3) { for n in [0usize, 1, 3, 4, 4096, usize::MAX - 1, usize::MAX] {
+            // O(min(i, n)) generator derivation for an in-range index is inherent; an out-of-range index must be refused at once
+            // In-range positions beyond 5000 are not in the grid, except (usize::MAX-1, usize::MAX), which no implementation can serve and which
+            // therefore must come back promptly either way.
+            if i < n && i > 5000 && !(i == usize::MAX - 1) { continue; }
+            let count = if i < n { i.min(5000) + 4 } else { 4 };
+            let expect_ok = if i == usize::MAX - 1 && i < n { None } else { Some(i < n) };
+            cases.push(Case { case: json!({"f": "update_signature", "s": sn, "i": i, "n": n}), class: "update_signature:index-and-count".into(), bytes: 16, count, expect_ok });
+        } }
+        for nm in [0usize, 1, 2, 3, 4, 64] { cases.push(Case { case: json!({"f": "verify_n", "s": sn, "nm": nm}), class: "verify:message-count".into(), bytes: 16 * nm, count: nm + 4, expect_ok: Some(nm == 3) }); }
+        for nm in 0..=3usize { for ncm in 0..=3usize {
+            cases.push(Case { case: json!({"f": "verify_blind_sign_n", "s": sn, "nm": nm, "ncm": ncm}), class: "verify_blind_sign:message-counts".into(), bytes: 16 * (nm + ncm), count: nm + ncm + 4, expect_ok: Some(nm == 2 && ncm == 2) });
+        } }
+        for nm in [0usize, 1, 2, 3, 64] { cases.push(Case { case: json!({"f": "blind_sign_n", "s": sn, "nm": nm}), class: "blind_sign:message-count".into(), bytes: 16 * nm, count: nm + 8, expect_ok: Some(true) }); }
+    }
+    let _ = Suite::Sha256;
+    env.ctx.extra("cases_by_family", json!({"total": cases.len()}));
+    if let Some(c) = cases.iter().find(|c| c.case["f"] == "blind_proof_verify_idx" && c.case["l"] == json!(usize::MAX)) { env.ctx.sample(c.case.clone()); }
+    if let Some(c) = cases.iter().find(|c| c.case["f"] == "dec_proof" && c.case["len"] == 271) { env.ctx.sample(c.case.clone()); }
+    if let Some(c) = cases.iter().find(|c| c.case["f"] == "json" && c.case["edit"].as_str().map(|e| e.contains("identity")).unwrap_or(false)) { let mut x = c.case.clone(); x["j"] = json!("(elided)"); env.ctx.sample(x); }
+    if env.want("sweep") { sweep(env, "sweep", &cases); }
+}
